@@ -397,7 +397,9 @@ where
 
         Ok(Box::pin(self.records(header).try_filter_map(
             |record| async {
-                if record.flags().is_unmapped() {
+                // Placed records that are flagged as unmapped sort with their reference sequence
+                // and do not belong to the unplaced region.
+                if record.reference_sequence_id().is_none() && record.flags().is_unmapped() {
                     Ok(Some(record))
                 } else {
                     Ok(None)
